@@ -983,3 +983,9 @@ def nontrivial(line, reply):
     if t[0] in ("arange", "linspace", "rot"):
         return "%s:%s" % (t[0], " ".join(t[1:4]))
     return "%s:%s:%s" % (t[0], t[1] if len(t) > 1 else "", "panic" if st == "panic" else (toks[0] if toks else ""))
+
+# --- deep theorems (C15Sim)
+PROOF_MODULES = PROOF_MODULES + ['Compute.Props.C15Sim']
+REQUIRED_THEOREMS = REQUIRED_THEOREMS + ['Cv.C15Sim.applyOp_sim', 'Cv.C15Sim.simulation', 'Cv.C15Sim.simulation_keep', 'Cv.C15Sim.simulation_nonempty', 'Cv.C15Sim.run_count', 'Cv.C15Sim.queries_sim', 'Cv.C15Sim.proper_necessary']
+NOT_PROVED = [x for x in NOT_PROVED if not any(k in str(x) for k in ('one simulation theorem', 'operation by operation'))]
+NOT_PROVED = NOT_PROVED + ['the whole-program simulation theorem (Props/C15Sim: every program of the 19 operations commutes with an independent list-of-rows reference, panics included) holds for programs that never apply an operation to a 0-row matrix: a list of rows cannot represent a 0 x c matrix with c > 0 (proper_necessary shows the side condition cannot be dropped)']
